@@ -121,7 +121,7 @@ CHECKS["C16"] = dict(
 
 NOT_APPLICABLE = {}
 
-HOOK_COMMITS = ["6b59734", "6335744", "5382be1", "5e921af", "851c4ba", "5063793", "42c67f4", "011cabf"]
+HOOK_COMMITS = ["6b59734", "6335744", "5382be1", "5e921af", "851c4ba", "5063793", "42c67f4", "011cabf", "c6a49db"]
 
 
 def main():
